@@ -615,7 +615,7 @@ class Path(PathDeprecations):
                     raise PathError(f"{ptype} is not creatable since parent directory not writeable: {abs_path!r}")
                 if "d" in mode and os.access(abs_path, os.F_OK) and not os.path.isdir(abs_path):
                     raise PathError(f"{ptype} is not creatable since path already exists: {abs_path!r}")
-                if "f" in mode and os.access(abs_path, os.F_OK) and not os.path.isfile(abs_path):
+                if "f" in mode and os.access(abs_path, os.F_OK) and not (os.path.isfile(abs_path) or is_fifo(abs_path)):
                     raise PathError(f"{ptype} is not creatable since path already exists: {abs_path!r}")
             elif "d" in mode or "f" in mode:
                 if not os.access(abs_path, os.F_OK):
